@@ -640,6 +640,11 @@ func mangle(c context, templateName string) string {
 	// The mangled name for the default context is the input templateName.
 	if c.state == stateText {
 		if _, err := sanitizerForElementContent(c); err == nil && !c.element.continued && c.enclosing == "" {
+			if c.inNoscript {
+				// The text of the called template is checked for "</noscript", and the context
+				// after the call is still inside the element: a copy of its own.
+				return templateName + derivedNameInfix + c.state.String() + "_" + c.element.String() + "_inNoscript"
+			}
 			return templateName
 		}
 		// Actions are not allowed in the content of this element: analyse a separate copy
